@@ -20,7 +20,7 @@ CONFIG = {
     "level_note": "Trusted: Lean kernel + 3 standard axioms; the model<->code tie is sampling (per-binary exhaustive for user code, seeded samples of the "
                   "standard-library units); gimli's decoding is environment but its result is compared with llvm-dwarfdump on every run; path-template "
                   "matching is C17's theorem (queries use full paths). Completeness of line breakpoints (one per function containing the line) is NOT proved: "
-                  "it is false of the unchanged code (C04_line_to_addrs_counterexample, known finding).",
+                  "it is false of the unchanged code (C04_line_to_addrs_counterexample, C04_line_to_addrs_counterexample_pe_lookahead, known findings). The oracle identifies a source file by its exact path (/rustc/<hash>/ remapped to the default toolchain's sources, the rule the debugger applies).",
     "runs": {"quick": [{"n": 120, "timeout": 900}], "thorough": [{"n": 1500, "extra": ["--all-progs"], "timeout": 6000}]},
     "shrinkable": False,
     "trivial_answers": ["ok", "-", "bad-op", "", "none"],
